@@ -1343,3 +1343,127 @@ class RenameSeries(Op):
     @staticmethod
     def apply(side, objs, args):
         return objs[0].rename(args["name"])
+
+
+# ------------------------------------------------------------------ more operator families (C02 catalogue; weight 0 elsewhere)
+
+
+@register("groupby_window", kinds=("frame",), weight=0.0, tags={"groupby", "window"})
+class GroupbyWindow(Op):
+    @staticmethod
+    def gen(draw, ins):
+        x, f = ins[0]
+        keys = [c for c in cols_of(x, ("int", "str")) if c != "rid" and not x[c].isna().any()]
+        vals = cols_of(x, ("int", "float"))
+        if not keys or not f.ordered:
+            return None
+        s = st()
+        by = draw(s.sampled_from(keys))
+        vals = [c for c in vals if c != by]
+        if not vals:
+            return None
+        return {"by": by, "col": draw(s.sampled_from(vals)), "how": draw(s.sampled_from(["cumsum", "cumcount", "cumprod", "shift", "ffill", "bfill", "transform_sum", "apply_demean"]))}
+
+    @staticmethod
+    def apply(side, objs, args):
+        g = objs[0].groupby(args["by"])[args["col"]]
+        how = args["how"]
+        if how == "transform_sum":
+            return g.transform("sum")
+        if how == "apply_demean":
+            if side == "pandas":
+                return g.transform(udfs.group_demean)
+            return g.transform(udfs.group_demean)
+        if how == "shift":
+            return g.shift(1)
+        return getattr(g, how)()
+
+    @staticmethod
+    def flags(ins, args, out):
+        # row-aligned with the input through the index labels; the row order is what the shuffle leaves
+        return replace(ins[0][1], rowset="", ordered=False, layout=False)
+
+
+@register("rolling", kinds=("series", "frame"), weight=0.0, tags={"window"})
+class Rolling(Op):
+    @staticmethod
+    def gen(draw, ins):
+        x, f = ins[0]
+        if not f.ordered:
+            return None
+        if kind_of(x) == "series":
+            if col_kind(x.dtype) not in ("int", "float"):
+                return None
+        elif not (len(x.columns) and all(col_kind(d) in ("int", "float") for d in x.dtypes)):
+            return None
+        s = st()
+        w = draw(s.integers(1, 4))
+        return {"window": w, "min_periods": draw(s.sampled_from([None, 1, w])), "center": draw(s.booleans()), "how": draw(s.sampled_from(["sum", "mean", "max", "count"]))}
+
+    @staticmethod
+    def apply(side, objs, args):
+        r = objs[0].rolling(args["window"], min_periods=args["min_periods"], center=args["center"])
+        return getattr(r, args["how"])()
+
+
+@register("cum_frame", kinds=("frame",), weight=0.0, tags={"window"})
+class CumFrame(Op):
+    @staticmethod
+    def gen(draw, ins):
+        x, f = ins[0]
+        if not f.ordered or not (len(x.columns) and all(col_kind(d) in ("int", "float") for d in x.dtypes)):
+            return None
+        return {"f": draw(st().sampled_from(["cumsum", "cummax", "cummin", "cumprod"]))}
+
+    @staticmethod
+    def apply(side, objs, args):
+        return getattr(objs[0], args["f"])()
+
+
+@register("idx_extreme", kinds=("series",), weight=0.0, tags={"reduction"})
+class IdxExtreme(Op):
+    @staticmethod
+    def gen(draw, ins):
+        x, f = ins[0]
+        if not f.indexed or col_kind(x.dtype) not in ("int", "float") or len(x) == 0:
+            return None
+        nn = x.dropna()
+        if len(nn) == 0 or not nn.is_unique or x.index.has_duplicates:
+            return None
+        return {"how": draw(st().sampled_from(["idxmax", "idxmin"]))}
+
+    @staticmethod
+    def apply(side, objs, args):
+        return getattr(objs[0], args["how"])()
+
+    @staticmethod
+    def flags(ins, args, out):
+        return replace(ins[0][1], rowset="", ordered=True, indexed=True, layout=True)
+
+
+@register("binop_misaligned", arity=2, kinds=("series", "series"), weight=0.0, tags={"rowwise", "misaligned"})
+class BinopMisaligned(Op):
+    """binary op between series from DIFFERENT sources that have to be aligned on the index"""
+
+    @staticmethod
+    def gen(draw, ins):
+        (a, fa), (b, fb) = ins
+        if fa.rowset == fb.rowset or not (fa.indexed and fb.indexed):
+            return None
+        if col_kind(a.dtype) not in ("int", "float") or col_kind(b.dtype) not in ("int", "float"):
+            return None
+        for x in (a, b):
+            if isinstance(x.index, pd.MultiIndex) or x.index.has_duplicates or x.index.hasnans or not x.index.is_monotonic_increasing:
+                return None
+        if a.index.dtype != b.index.dtype:
+            return None
+        return {"op": draw(st().sampled_from(ARITH + ["gt"]))}
+
+    @staticmethod
+    def apply(side, objs, args):
+        return BIN[args["op"]](objs[0], objs[1])
+
+    @staticmethod
+    def flags(ins, args, out):
+        fa, fb = ins[0][1], ins[1][1]
+        return Flags(ordered=True, indexed=True, layout=False, rowset="", pandas_ok=fa.pandas_ok and fb.pandas_ok, srcs=tuple(sorted(set(fa.srcs) | set(fb.srcs))))
